@@ -6,6 +6,7 @@ import (
 	"go/types"
 
 	"cachelint/internal/core"
+	"cachelint/internal/sym"
 
 	"golang.org/x/tools/go/ssa"
 )
@@ -32,6 +33,37 @@ func C08(r *Run) *core.Report {
 	n := borrow(rep, mapProtocol(r, "C03", 0), "C08.S5", "C03.P7")
 	n += borrow(rep, mapProtocol(r, "C04", 1), "C08.S5", "C04.P7")
 	rep.MinCount("C08.S5", "premise obligations (Clear acts)", n, 4)
+	// S6: 'Count equals the live-entry count right after DeleteExpired and is 0 right after Clear' needs every call of
+	// them to do its work: on every evaluated path DeleteExpired traverses the map and Clear clears it - a call that
+	// returns early (because another pass is running, because a flag says nothing expired) leaves expired entries counted
+	n6 := 0
+	for twin := 0; twin < 2; twin++ {
+		for name, op := range map[string]string{"DeleteExpired": "Range", "Clear": "Clear"} {
+			mp := methodPaths(r, twin, name)
+			if undecidedPaths(r, rep, "C08.S0", mp) {
+				continue
+			}
+			bad := ""
+			for pi := range mp.Paths {
+				p := &mp.Paths[pi]
+				if p.Panic {
+					continue
+				}
+				has := false
+				for _, ev := range p.Events {
+					if ev.Kind == "mapop" && ev.Name == op {
+						has = true
+					}
+				}
+				if !has && bad == "" {
+					bad = "a path returns without the " + op + " of the underlying map (path: " + sym.DescribePC(p.PC) + ")"
+				}
+			}
+			n6++
+			rep.Check(bad == "", "C08.S6", fn(mp.Fn)+" always does its pass", r.P.Pos(mp.Fn.Pos()), fmt.Sprintf("all %d paths perform the %s", len(mp.Paths), op), name+" can return without doing its work: "+bad)
+		}
+	}
+	rep.MinCount("C08.S6", "cleanup entry points", n6, 4)
 	return rep
 }
 
